@@ -534,12 +534,13 @@ def facts(case, out):
            for u in case["scn"]["users"].values() for op in u]
     kinds = sorted({op[2] for u in case["scn"]["users"].values() for op in u if op[0] == "submit"})
     died = [d["role"] + ":" + d["exc"].split(":")[0] for d in out.get("died", [])]
-    blocked = sorted({b["role"] + "@" + b["label"] for b in out.get("blocked", []) if b["proc"] == "parent"})
+    # (labels of a second executor instance carry a prefix "e2:": the signatures are about the operation)
+    blocked = sorted({b["role"] + "@" + b["label"].split(":")[-1] for b in out.get("blocked", []) if b["proc"] == "parent"})
     return dict(fam=case["scn"].get("fam"), ops=ops, kinds=kinds, died=died, blocked=blocked,
                 timeout=case["scn"]["exec"].get("timeout") is not None,
                 clean_exits=sum(1 for e in tr if e["ev"] == "die" and e.get("how") == "exit"),
                 crashes=sum(1 for e in tr if e["ev"] == "die" and e.get("how") == "crash"),
-                crash_at=[e.get("at", "") for e in tr if e["ev"] == "die" and e.get("how") in ("crash", "killed")],
+                crash_at=[e.get("at", "").split(":")[-1] for e in tr if e["ev"] == "die" and e.get("how") in ("crash", "killed")],
                 crash_ann=[e.get("at", "").split(":")[-1] for e in tr if e["ev"] == "die" and e.get("how") in ("crash", "killed") and e.get("ann")],
                 exc=[d["role"] + ":" + d["exc"][:120] for d in out.get("died", [])],
                 end=end.get("how"))
